@@ -245,7 +245,7 @@ func canonSorted(s string) string {
 }
 
 func c12Gen(r *Rng, n int) []string {
-	newAlpha := []string{"x", "y", "x.c", "x.d", "y.z", "x.c.e", "p", "p.q", "x.", "n.m.o"}
+	newAlpha := []string{"x", "y", "x.c", "x.d", "y.z", "x.c.e", "p", "p.q", "x.", "n.m.o", "x..", "q.r...", "..", ".x"}
 	var ops []string
 	for len(ops) < n {
 		cfg := jsonShape
